@@ -367,6 +367,56 @@ pub fn traced_boxed(inner: crate::adapters::ScriptedFuture) -> std::pin::Pin<Box
     Box::pin(async move { inner.await })
 }
 
+thread_local! {
+    /// which kind of iterator the next list of properties is passed as (per vthread, so a program
+    /// always sees the same sequence)
+    static ITER_SHAPE: Cell<u8> = const { Cell::new(0) };
+}
+
+pub fn next_shape() -> u8 {
+    ITER_SHAPE.with(|c| {
+        let v = c.get();
+        c.set(v.wrapping_add(1));
+        v
+    })
+}
+
+/// The same items as `v`, in order, as an iterator whose size hint says as little as the trait
+/// allows: exact (a vector), lower bound 0 (`filter`, `take_while`, `from_fn`), lower bound 1 with
+/// more to come (`once().chain(filter)`), lower bound 1 and no upper bound (`successors`).
+pub fn shaped<T: 'static>(v: Vec<T>, shape: u8) -> Box<dyn Iterator<Item = T>> {
+    match shape % 6 {
+        0 => Box::new(v.into_iter()),
+        1 => Box::new(v.into_iter().filter(|_| true)),
+        2 => {
+            let mut it = v.into_iter();
+            match it.next() {
+                Some(first) => Box::new(std::iter::once(first).chain(it.filter(|_| true))),
+                None => Box::new(std::iter::empty()),
+            }
+        }
+        3 => {
+            let mut it = v.into_iter();
+            Box::new(std::iter::from_fn(move || it.next()))
+        }
+        4 => {
+            let mut it = v.into_iter();
+            // `successors` (lower bound 1, no upper bound) driving the hand-over of the items
+            let mut first = it.next();
+            let mut started = false;
+            Box::new(std::iter::successors(Some(()), move |_| Some(())).map_while(move |_| {
+                if !started {
+                    started = true;
+                    first.take()
+                } else {
+                    it.next()
+                }
+            }))
+        }
+        _ => Box::new(v.into_iter().take_while(|_| true)),
+    }
+}
+
 fn tid(tc: u8, tr: u64, uniq: u32) -> u128 {
     match tc {
         0 => uniq as u128 + 1,
@@ -640,9 +690,10 @@ impl VtCtx {
     }
 
     fn apply_props(span: Span, props: &[(String, String)], hit: &mut bool) -> Span {
+        let shape = next_shape();
         if props.is_empty() {
             span
-        } else if props.len() == 1 {
+        } else if props.len() == 1 && shape % 2 == 0 {
             let p = props[0].clone();
             span.with_property(|| {
                 *hit = true;
@@ -652,7 +703,7 @@ impl VtCtx {
             let p = props.to_vec();
             span.with_properties(|| {
                 *hit = true;
-                p
+                shaped(p, shape / 2)
             })
         }
     }
@@ -729,7 +780,7 @@ impl VtCtx {
                 .collect();
             // the parents are `impl IntoIterator<Item = &Span>`: a vector, or lazy iterators whose
             // size hints say little about what they yield (a huge or absent upper bound, lower 0)
-            let shape = (s.l as usize + s.c as usize + refs.len()) % 5;
+            let shape = (s.l as usize + s.c as usize + refs.len()) % 8;
             let sp = if refs.len() == 1 && shape < 3 {
                 Span::enter_with_parent(n2, refs[0])
             } else {
@@ -737,7 +788,24 @@ impl VtCtx {
                     0 | 1 => Span::enter_with_parents(n2, refs),
                     2 => Span::enter_with_parents(n2, (0..usize::MAX).map_while(|i| refs.get(i).copied())),
                     3 => Span::enter_with_parents(n2, std::iter::repeat(()).take(usize::MAX).enumerate().map_while(|(i, _)| refs.get(i).copied())),
-                    _ => Span::enter_with_parents(n2, std::iter::successors(Some(0usize), |i| Some(i + 1)).map_while(|i| refs.get(i).copied())),
+                    4 => Span::enter_with_parents(n2, std::iter::successors(Some(0usize), |i| Some(i + 1)).map_while(|i| refs.get(i).copied())),
+                    // lower bound 1 with more to come; lower bound 0 with everything to come
+                    5 => match refs.split_first() {
+                        Some((first, rest)) => Span::enter_with_parents(n2, std::iter::once(*first).chain(rest.iter().copied().filter(|_| true))),
+                        None => Span::enter_with_parents(n2, refs),
+                    },
+                    6 => Span::enter_with_parents(n2, refs.iter().copied().filter(|_| true)),
+                    _ => {
+                        let mut i = 0usize;
+                        let first = refs.first().copied();
+                        Span::enter_with_parents(
+                            n2,
+                            std::iter::successors(first, |_| {
+                                i += 1;
+                                refs.get(i).copied()
+                            }),
+                        )
+                    }
                 }
             };
             Self::apply_props(sp, &p2, &mut hit)
@@ -900,7 +968,7 @@ impl VtCtx {
             l.with_properties(|| {
                 hit = true;
                 me.run_re(re);
-                p2
+                shaped(p2, next_shape())
             })
         });
         let mut w = self.w();
@@ -929,9 +997,10 @@ impl VtCtx {
         let mut hit = false;
         let ls = self.guarded("LocalSpan::enter_with_local_parent", |_| {
             let l = LocalSpan::enter_with_local_parent(n2);
+            let shape = next_shape();
             if p2.is_empty() {
                 l
-            } else if p2.len() == 1 {
+            } else if p2.len() == 1 && shape % 2 == 0 {
                 let p = p2[0].clone();
                 l.with_property(|| {
                     hit = true;
@@ -940,7 +1009,7 @@ impl VtCtx {
             } else {
                 l.with_properties(|| {
                     hit = true;
-                    p2
+                    shaped(p2, shape / 2)
                 })
             }
         })?;
@@ -1318,8 +1387,9 @@ impl VtCtx {
                 let t0 = self.w().tick();
                 let p2 = props.clone();
                 let mut hit = false;
+                let shape = next_shape();
                 self.guarded("Span::add_properties", |me| {
-                    if p2.len() == 1 {
+                    if p2.len() == 1 && shape % 2 == 0 {
                         let p = p2[0].clone();
                         span.add_property(|| {
                             hit = true;
@@ -1330,7 +1400,7 @@ impl VtCtx {
                         span.add_properties(|| {
                             hit = true;
                             me.run_re(re);
-                            p2
+                            shaped(p2, shape / 2)
                         })
                     }
                 });
@@ -1381,7 +1451,7 @@ impl VtCtx {
                         LocalSpan::add_properties(|| {
                             hit = true;
                             me.run_re(re);
-                            p2
+                            shaped(p2, next_shape())
                         })
                     }
                 });
@@ -1547,7 +1617,7 @@ impl VtCtx {
                 e.with_properties(|| {
                     hit = true;
                     me.run_re(re);
-                    p2
+                    shaped(p2, next_shape())
                 })
             }
         });
@@ -2221,6 +2291,42 @@ impl VtCtx {
         }
     }
 
+    /// the text decoders are entry points of a host too (an incoming request header): whatever
+    /// the text is, they return
+    pub fn op_decode_text(&mut self, kind: u8, at: u8, width: u8) {
+        use std::str::FromStr;
+        let u = self.w().uniq() as u128;
+        let canon = SpanContext::new(TraceId(0x0af7_6519_16cd_43dd_8448_eb21_1c80_319c ^ u), SpanId(0xb7ad_6b71_6920_3331 ^ u as u64)).encode_w3c_traceparent();
+        let at = (at as usize).min(canon.len());
+        let ch = match width {
+            1 => "g",
+            2 => "é",
+            3 => "中",
+            _ => "😀",
+        };
+        let text = match kind {
+            0 => canon.clone(),
+            1 => {
+                let end = (at + ch.len()).min(canon.len());
+                format!("{}{}{}", &canon[..at], ch, &canon[end..])
+            }
+            2 => canon[..at].to_string(),
+            _ => format!("{}{}{}", &canon[..at], ch, &canon[at..]),
+        };
+        self.w().h.label("decode_text");
+        let t2 = text.clone();
+        self.guarded("SpanContext::decode_w3c_traceparent", move |_| {
+            let _ = SpanContext::decode_w3c_traceparent(&t2);
+        });
+        let t3 = text.clone();
+        self.guarded("TraceId::from_str / SpanId::from_str", move |_| {
+            let _ = TraceId::from_str(&t3);
+            let _ = SpanId::from_str(&t3);
+            let _ = TraceId::from_str(t3.get(3..35).unwrap_or(""));
+            let _ = SpanId::from_str(t3.get(36..52).unwrap_or(""));
+        });
+    }
+
     pub fn op_trace_fn(&mut self, kind: u8) {
         self.w().h.label("trace_fn");
         match kind % 4 {
@@ -2388,6 +2494,7 @@ impl VtCtx {
             Op::Churn { k } => self.op_churn(*k),
             Op::Exit => return false,
             Op::TraceFn { kind } => self.op_trace_fn(*kind),
+            Op::DecodeText { kind, at, width } => self.op_decode_text(*kind, *at, *width),
             Op::WhilePanicking { inner } => {
                 if std::thread::panicking() || self.reentrant_depth > 0 || matches!(**inner, Op::WhilePanicking { .. } | Op::Exit | Op::Flush) {
                     return self.exec(inner);
